@@ -389,7 +389,7 @@ def run_sim_case(doc, P):
     from quantum_gates._simulation.simulator import MrAndersonSimulator
     from quantum_gates._simulation import circuit as cm
     n = doc["n"]
-    qc = QuantumCircuit(n, n)
+    qc = QuantumCircuit(n, n, name="circ")
     for ins in doc["prog"]:
         if ins[0] == "rz":
             qc.rz(ins[1], ins[2])
